@@ -8,9 +8,17 @@
   script, and produces nothing an application client or the application can see (section C).
   From these: one input on the instrumented server simulates the same input on the plain server
   started in `appPart a s` (`step_sim`), and histories follow by induction (`trace_sim`).
+
+  Read-only / production mode (last sections): no output of any step of any history is the
+  invocation of a mutator (`step_run_noMut`, `stepWith_noMut`, `noMutator_ro`), so `quiet` is its
+  second half (`quiet_ro`), which holds outright with synchronous handlers (`settleQuiet_sync`);
+  one admin request is inert from any state (`stepWith_adminEvent_ro`, `runHandler_admin_ro`); the
+  instrumented run simulates the plain run on the history without the admin clients' EVENT
+  frames (`pruned_sim`).
 -/
 import Sio.Lemmas.Admin
 import Sio.Lemmas.ServerStep
+import Sio.Lemmas.ServerFrame
 namespace Sio.Admin
 open Sio.Server Sio.Rooms
 
@@ -1274,5 +1282,839 @@ theorem ro_resolve_no_mutator {app : Registry} {a : Ns} {mode : Str} {ro : Bool}
     · simp [mutatorCalled, hns]
   · obtain ⟨m, rfl⟩ := hs
     rfl
+
+/-! ### read-only: no step of any history invokes a mutator -/
+
+/-- none of `outs` is the invocation of `emit / join / leave / _disconnect` of the admin namespace -/
+def NoMut (a : Ns) (outs : List Out) : Prop := ∀ o ∈ outs, mutatorCalled a o = false
+
+/-- whatever the registry resolves an event to — on any namespace, for any event name and
+    arguments — is not one of the four mutators of `a` -/
+def RegNoMut (reg : Registry) (a : Ns) : Prop :=
+  ∀ (ns : Ns) (ev : J) (args : List J) (r : Resolved), resolve reg ns ev args = .ok r →
+    ∀ slot args', (r = .fn slot args' ∨ r = .clsCall slot args') →
+      mutatorCalled a (.invoke slot args') = false
+
+theorem regNoMut_ro {app : Registry} {a : Ns} {mode : Str} {ro : Bool}
+    (hro : ro = true ∨ isDev mode = false) (hc : AppClear app a) (ha : a ≠ star) :
+    RegNoMut (instrumentReg app a mode ro) a :=
+  fun _ _ _ _ h => ro_resolve_no_mutator hro hc ha h
+
+theorem NoMut.nil (a : Ns) : NoMut a [] := fun _ h => by cases h
+
+theorem NoMut.append {a : Ns} {x y : List Out} (hx : NoMut a x) (hy : NoMut a y) :
+    NoMut a (x ++ y) := fun o ho => by
+  rcases List.mem_append.mp ho with h | h
+  · exact hx o h
+  · exact hy o h
+
+theorem NoMut.cons {a : Ns} {o : Out} {x : List Out} (ho : mutatorCalled a o = false)
+    (hx : NoMut a x) : NoMut a (o :: x) := fun o' h => by
+  rcases List.mem_cons.mp h with rfl | h
+  · exact ho
+  · exact hx o' h
+
+theorem noMut_sendTo (a : Ns) (s : Srv) (t : Option Eio) (p : Packet) : NoMut a (sendTo s t p) := by
+  intro o ho
+  unfold sendTo at ho
+  split at ho
+  · split at ho
+    · simp at ho; subst ho; rfl
+    · cases ho
+  · cases ho
+
+theorem NoMut.any {a : Ns} {outs : List Out} (h : NoMut a outs) :
+    outs.any (mutatorCalled a) = false := by
+  rw [List.any_eq_false]
+  intro o ho
+  simp [h o ho]
+
+/-- closes `NoMut a <concrete list expression>` given the facts about its invocations -/
+local macro "nomut" : tactic => `(tactic| (try dsimp only) <;> repeat' (first
+  | assumption
+  | exact NoMut.nil _
+  | exact noMut_sendTo _ _ _ _
+  | apply NoMut.append
+  | apply NoMut.cons (by first | assumption | rfl)
+  | split))
+
+section handlers
+variable {cfg : Cfg} {a : Ns} (hreg : RegNoMut cfg.reg a)
+include hreg
+
+theorem endSession_noMut (s : Srv) (sid : Sid) (ns : Ns) (reason : Str) (b : Bool) :
+    NoMut a (endSession cfg s sid ns reason b).2.1 := by
+  unfold endSession
+  dsimp only
+  split
+  · nomut
+  · rename_i r hr
+    cases r with
+    | fn slot args =>
+      have hm := hreg _ _ _ _ hr slot args (Or.inl rfl)
+      dsimp only
+      cases cfg.script.onDisconnect s.nDisc <;> dsimp only <;> nomut
+    | clsCall slot args =>
+      have hm := hreg _ _ _ _ hr slot args (Or.inr rfl)
+      dsimp only
+      cases cfg.script.onDisconnect s.nDisc <;> dsimp only <;> nomut
+    | clsNoMethod => dsimp only; nomut
+    | notHandled => dsimp only; nomut
+
+theorem handleDisconnect_noMut (s : Srv) (t : Eio) (ns : Ns) (reason : Str) :
+    NoMut a (handleDisconnect cfg s t ns reason).2.1 := by
+  unfold handleDisconnect
+  split
+  · exact NoMut.nil a
+  · split
+    · exact NoMut.nil a
+    · exact endSession_noMut hreg _ _ _ _ _
+
+theorem apiDisconnect_noMut (s : Srv) (sid : Sid) (ns : Ns) :
+    NoMut a (apiDisconnect cfg s sid ns).2 := by
+  unfold apiDisconnect
+  split
+  · exact NoMut.nil a
+  · exact endSession_noMut hreg _ _ _ _ _
+
+theorem handleConnect_noMut (s : Srv) (t : Eio) (nsp : Option Str) (d : Option J) :
+    NoMut a (handleConnect cfg s t nsp d).2 := by
+  unfold handleConnect
+  dsimp only
+  split
+  · nomut
+  · split
+    · nomut
+    · split
+      · nomut
+      · rename_i r hr
+        cases r with
+        | fn slot args =>
+          have hm := hreg _ _ _ _ hr slot args (Or.inl rfl)
+          dsimp only
+          cases cfg.script.onConnect s.nConn <;> dsimp only <;> nomut
+        | clsCall slot args =>
+          have hm := hreg _ _ _ _ hr slot args (Or.inr rfl)
+          dsimp only
+          cases cfg.script.onConnect s.nConn <;> dsimp only <;> nomut
+        | clsNoMethod => dsimp only; nomut
+        | notHandled => dsimp only; nomut
+
+theorem runHandler_noMut (s : Srv) (b : Bg) : NoMut a (runHandler cfg s b).2 := by
+  unfold runHandler
+  split
+  · nomut
+  · rename_i r hr
+    cases r with
+    | fn slot args =>
+      have hm := hreg _ _ _ _ hr slot args (Or.inl rfl)
+      dsimp only
+      cases cfg.script.onEvent s.nEv <;> dsimp only <;> nomut
+    | clsCall slot args =>
+      have hm := hreg _ _ _ _ hr slot args (Or.inr rfl)
+      dsimp only
+      cases cfg.script.onEvent s.nEv <;> dsimp only <;> nomut
+    | clsNoMethod => dsimp only; nomut
+    | notHandled => dsimp only; nomut
+
+theorem handleEvent_noMut (s : Srv) (t : Eio) (nsp : Option Str) (id : Option Nat) (d : Option J) :
+    NoMut a (handleEvent cfg s t nsp id d).2 := by
+  unfold handleEvent
+  dsimp only
+  split
+  · nomut
+  · split
+    · nomut
+    · split
+      · nomut
+      · split
+        · nomut
+        · exact runHandler_noMut hreg _ _
+
+omit hreg in
+theorem handleAck_noMut (s : Srv) (t : Eio) (nsp : Option Str) (id : Option Nat) (d : Option J) :
+    NoMut a (handleAck s t nsp id d).2 := by
+  unfold handleAck
+  dsimp only
+  split
+  · split
+    · nomut
+    · split
+      · nomut
+      · split <;> nomut
+  · nomut
+
+theorem handleFrame_noMut (dec : Str → Except Err (Packet × Nat)) (s : Srv) (t : Eio) (v : J) :
+    NoMut a (handleFrame dec cfg s t v).2 := by
+  have hfc := frameCase dec cfg s t v
+  generalize handleFrame dec cfg s t v = r at hfc
+  cases hfc with
+  | tooMany _ _ => nomut
+  | reconErr _ _ _ _ => nomut
+  | binEvent _ _ _ _ _ => exact handleEvent_noMut hreg _ _ _ _ _
+  | binAck _ _ _ _ _ => exact handleAck_noMut _ _ _ _ _
+  | more _ _ _ => nomut
+  | undecodable _ _ => nomut
+  | packet hf hd =>
+    rename_i p natt
+    have hdc := dispatchCase cfg s t p natt
+    generalize dispatchPacket cfg s t p natt = r at hdc
+    cases hdc with
+    | connect _ => exact handleConnect_noMut hreg _ _ _ _
+    | disconnect _ => exact handleDisconnect_noMut hreg _ _ _ _
+    | event _ => exact handleEvent_noMut hreg _ _ _ _ _
+    | ack _ => exact handleAck_noMut _ _ _ _ _
+    | binHeader _ => nomut
+    | other => nomut
+
+theorem lostGo_noMut (t : Eio) (reason : Str) (nss : List Ns) :
+    ∀ (s : Srv) (o : List Out), NoMut a o → NoMut a (handleLost.go cfg t reason s o nss).2 := by
+  induction nss with
+  | nil => intro s o ho; exact ho
+  | cons ns rest ih =>
+    intro s o ho
+    rw [handleLost.go]
+    exact ih _ _ (ho.append (handleDisconnect_noMut hreg _ _ _ _))
+
+theorem handleLost_noMut (s : Srv) (t : Eio) (reason : Str) :
+    NoMut a (handleLost cfg s t reason).2 := by
+  rw [handleLost_eq]
+  split
+  · exact NoMut.nil a
+  · exact lostGo_noMut hreg t reason _ s [] (NoMut.nil a)
+
+theorem drain_noMut (bs : List Bg) :
+    ∀ (s : Srv) (o : List Out), NoMut a o → NoMut a (step.drain cfg s o bs).2 := by
+  induction bs with
+  | nil => intro s o ho; exact ho
+  | cons b rest ih =>
+    intro s o ho
+    rw [step.drain]
+    exact ih _ _ (ho.append (runHandler_noMut hreg _ _))
+
+end handlers
+
+theorem emitFold_noMut (a : Ns) (ns : Ns) (payload : List J) (tok : CbTok) (rs : List (Sid × Eio)) :
+    ∀ (s : Srv) (o : List Out), NoMut a o → NoMut a (rs.foldl (emitOne ns payload tok) (s, o)).2 := by
+  induction rs with
+  | nil => intro s o ho; exact ho
+  | cons r rs ih =>
+    intro s o ho
+    simp only [List.foldl_cons]
+    exact ih _ _ (ho.append (noMut_sendTo _ _ _ _))
+
+theorem emit_noMut (a : Ns) (s : Srv) (ev : Str) (d : Data) (ns : Ns) (to : Target) (skip : List Sid)
+    (cb : Option CbTok) : NoMut a (emit s ev d ns to skip cb).2 := by
+  cases cb with
+  | none =>
+    unfold emit
+    split
+    · exact NoMut.nil a
+    · intro o ho
+      simp only [List.mem_flatMap] at ho
+      obtain ⟨r, _, ho⟩ := ho
+      exact noMut_sendTo a _ _ _ o ho
+  | some tok =>
+    rw [emit_cb_eq]
+    split
+    · exact NoMut.nil a
+    · exact emitFold_noMut a ns _ tok _ s [] (NoMut.nil a)
+
+/-- **Every input, every history** (blocking `call()`s with their nested histories included): on
+    a configuration whose registry resolves nothing to a mutator, no output of `Server.step` /
+    `Server.run`, from any state, is the invocation of a mutator. -/
+theorem step_run_noMut (dec : Str → Except Err (Packet × Nat)) {cfg : Cfg} {a : Ns}
+    (hreg : RegNoMut cfg.reg a) :
+    (∀ (s : Srv) (i : Input), NoMut a (Server.step dec cfg s i).2) ∧
+    (∀ (s : Srv) (is : List Input), NoMut a (Server.run dec cfg s is).2) := by
+  apply step_run_induct dec cfg
+    (P := fun s i => NoMut a (Server.step dec cfg s i).2)
+    (Q := fun s is => NoMut a (Server.run dec cfg s is).2)
+  · intro s i hi
+    cases i with
+    | eioConnect t => rw [step]; exact NoMut.nil a
+    | frame t v => rw [step]; exact handleFrame_noMut hreg dec s t v
+    | eioLost t r => rw [step]; exact handleLost_noMut hreg s t r
+    | emit ev d ns to skip cb => rw [step]; exact emit_noMut a _ _ _ _ _ _ _
+    | call ev d ns sid during => exact absurd rfl (hi ev d ns sid during)
+    | apiDisconnect sid ns => rw [step]; exact apiDisconnect_noMut hreg s sid ns
+    | enterRoom sid ns room => rw [step]; split <;> nomut
+    | leaveRoom sid ns room => rw [step]; exact NoMut.nil a
+    | closeRoom ns room => rw [step]; exact NoMut.nil a
+    | rooms sid ns => rw [step]; nomut
+    | getSession sid ns => rw [step]; nomut
+    | saveSession sid ns v => rw [step]; nomut
+    | sessionBlock sid ns k v => rw [step]; nomut
+    | settle => rw [step]; exact drain_noMut hreg s.bg _ [] (NoMut.nil a)
+  · intro s ev d ns sid during ih
+    rw [step_call]
+    split
+    · nomut
+    · rename_i hc
+      have h1 : NoMut a (callStart s ev d ns sid).2 := emit_noMut a _ _ _ _ _ _ _
+      have h2 := ih (by simpa using hc)
+      have h3 : mutatorCalled a (callOutcome (run dec cfg (callStart s ev d ns sid).1 during).1 s.nCall) = false := by
+        unfold callOutcome; split <;> rfl
+      exact (h1.append h2).append (NoMut.cons h3 (NoMut.nil a))
+  · intro s; rw [run_nil]; exact NoMut.nil a
+  · intro s i is h1 h2
+    rw [run_cons]; exact h1.append h2
+
+/-! ### the two halves of `quiet` -/
+
+namespace Instrumented
+
+/-- first half of `quiet`: no step of the history invokes a mutator -/
+def noMutator (dec : Str → Except Err (Packet × Nat)) (c : Cfg) (a : Ns) (mode : Str) (ro : Bool)
+    (rep : Srv → Input → List Out → List Report) : Srv → List Input → Bool
+  | _, [] => true
+  | s, i :: is =>
+    !((Server.step dec (cfg c a mode ro) s i).2.any (mutatorCalled a)) &&
+    noMutator dec c a mode ro rep (stepWith dec c a mode ro rep s i).1 is
+
+/-- second half of `quiet`: whenever queued handlers are run (`settle`), no queued EVENT of the
+    admin namespace has a handler.  (The only admin event with a handler in read-only /
+    production mode is one literally named `connect`; with synchronous handlers nothing is ever
+    queued.) -/
+def settleQuiet (dec : Str → Except Err (Packet × Nat)) (c : Cfg) (a : Ns) (mode : Str) (ro : Bool)
+    (rep : Srv → Input → List Out → List Report) : Srv → List Input → Bool
+  | _, [] => true
+  | s, i :: is =>
+    (match i with
+     | .settle => s.bg.all (fun b => b.ns != a || !handled (cfg c a mode ro).reg b)
+     | _ => true) &&
+    settleQuiet dec c a mode ro rep (stepWith dec c a mode ro rep s i).1 is
+
+end Instrumented
+
+theorem quiet_eq (dec : Str → Except Err (Packet × Nat)) (c : Cfg) (a : Ns) (mode : Str) (ro : Bool)
+    (rep : Srv → Input → List Out → List Report) (s : Srv) (hist : List Input) :
+    Instrumented.quiet dec c a mode ro rep s hist =
+      (Instrumented.noMutator dec c a mode ro rep s hist &&
+        Instrumented.settleQuiet dec c a mode ro rep s hist) := by
+  induction hist generalizing s with
+  | nil => rfl
+  | cons i is ih =>
+    simp only [Instrumented.quiet, Instrumented.noMutator, Instrumented.settleQuiet,
+      Instrumented.quietStep, ih]
+    simp only [Bool.and_assoc]
+    congr 1
+    rw [← Bool.and_assoc, ← Bool.and_assoc]
+    congr 1
+    exact Bool.and_comm _ _
+
+/-! ### the instrumented server in read-only / production mode -/
+
+section ro
+variable {a : Ns} {mode : Str} {ro : Bool} (c : Cfg)
+  (hro : ro = true ∨ isDev mode = false) (hc : AppClear c.reg a) (ha : a ≠ star)
+  (dec : Str → Except Err (Packet × Nat)) (rep : Srv → Input → List Out → List Report)
+include hro hc ha
+
+theorem icfg_regNoMut : RegNoMut (Instrumented.cfg c a mode ro).reg a := regNoMut_ro hro hc ha
+
+omit hro hc ha in
+theorem emitReports_noMut (ci : Cfg) (a : Ns) (rs : List Report) (s : Srv) :
+    NoMut a (Instrumented.emitReports dec ci a s rs).2 := by
+  induction rs generalizing s with
+  | nil => exact NoMut.nil a
+  | cons r rs ih =>
+    simp only [Instrumented.emitReports]
+    refine NoMut.append ?_ (ih _)
+    rw [step]
+    exact emit_noMut a _ _ _ _ _ _ _
+
+/-- in read-only mode the admin handlers' API calls are none: `stepWith` is `Server.step` followed
+    by the reports -/
+theorem stepWith_ro (s : Srv) (i : Input) :
+    (Instrumented.stepWith dec c a mode ro rep s i).1 =
+      (Server.step dec (Instrumented.cfg c a mode ro) s i).1 ∧
+    (Instrumented.stepWith dec c a mode ro rep s i).2 =
+      (Server.step dec (Instrumented.cfg c a mode ro) s i).2 ++
+        (Instrumented.emitReports dec (Instrumented.cfg c a mode ro) a
+          (Server.step dec (Instrumented.cfg c a mode ro) s i).1
+          (rep s i (Server.step dec (Instrumented.cfg c a mode ro) s i).2)).2 := by
+  have hn := (step_run_noMut dec (icfg_regNoMut c hro hc ha)).1 s i
+  have hm : (Server.step dec (Instrumented.cfg c a mode ro) s i).2.flatMap
+      (mutatorCalls a (Server.step dec (Instrumented.cfg c a mode ro) s i).1) = [] := by
+    rw [List.flatMap_eq_nil_iff]
+    intro o hmem
+    exact mutatorCalls_nil (hn o hmem) _
+  constructor
+  · simp only [Instrumented.stepWith, hm, run_nil]
+    exact (emitReports_invisible dec _ a _ _).1
+  · simp only [Instrumented.stepWith, hm, run_nil, List.append_nil]
+
+/-- no output of a step of the instrumented server — of the core, of the admin handlers' API
+    calls, of the reports — is the invocation of a mutator -/
+theorem stepWith_noMut (s : Srv) (i : Input) :
+    NoMut a (Instrumented.stepWith dec c a mode ro rep s i).2 := by
+  rw [(stepWith_ro c hro hc ha dec rep s i).2]
+  exact ((step_run_noMut dec (icfg_regNoMut c hro hc ha)).1 s i).append (emitReports_noMut dec _ a _ _)
+
+theorem traceWith_noMut (hist : List Input) : ∀ s : Srv,
+    ∀ x ∈ (Instrumented.traceWith dec c a mode ro rep s hist).2, NoMut a x.2 := by
+  induction hist with
+  | nil => intro s x hx; cases hx
+  | cons i is ih =>
+    intro s x hx
+    simp only [Instrumented.traceWith, List.mem_cons] at hx
+    rcases hx with rfl | hx
+    · exact stepWith_noMut c hro hc ha dec rep s i
+    · exact ih _ x hx
+
+/-- **the first half of `quiet` holds by construction** in read-only / production mode: from any
+    state, along any history -/
+theorem noMutator_ro (hist : List Input) : ∀ s : Srv,
+    Instrumented.noMutator dec c a mode ro rep s hist = true := by
+  induction hist with
+  | nil => intro s; rfl
+  | cons i is ih =>
+    intro s
+    simp only [Instrumented.noMutator, ih, Bool.and_true, Bool.not_eq_true']
+    exact ((step_run_noMut dec (icfg_regNoMut c hro hc ha)).1 s i).any
+
+theorem quiet_ro (s : Srv) (hist : List Input) :
+    Instrumented.quiet dec c a mode ro rep s hist = Instrumented.settleQuiet dec c a mode ro rep s hist := by
+  rw [quiet_eq, noMutator_ro c hro hc ha dec rep hist s, Bool.true_and]
+
+end ro
+
+/-! ### synchronous handlers: nothing is ever queued -/
+
+theorem bgOf_endSession (cfg : Cfg) (s : Srv) (sid : Sid) (ns : Ns) (reason : Str) (b : Bool) :
+    (endSession cfg s sid ns reason b).1.bg = s.bg := by
+  obtain ⟨k, hk⟩ := endSession_state cfg s sid ns reason b
+  rw [hk]; rfl
+
+theorem bgOf_handleDisconnect (cfg : Cfg) (s : Srv) (t : Eio) (ns : Ns) (reason : Str) :
+    (handleDisconnect cfg s t ns reason).1.bg = s.bg := by
+  rcases handleDisconnect_state cfg s t ns reason with ⟨h1, _⟩ | ⟨sid, k, _, _, h1⟩ <;> rw [h1] <;> rfl
+
+theorem bgOf_handleConnect (cfg : Cfg) (s : Srv) (t : Eio) (nsp : Option Str) (d : Option J) :
+    (handleConnect cfg s t nsp d).1.bg = s.bg := by
+  rcases handleConnect_state cfg s t nsp d with h1 | ⟨rooms', k, _, hc, h1 | ⟨p, hp, h1⟩⟩ <;>
+    rw [h1] <;> rfl
+
+theorem bgOf_handleAck (s : Srv) (t : Eio) (nsp : Option Str) (id : Option Nat) (d : Option J) :
+    (handleAck s t nsp id d).1.bg = s.bg := by
+  rcases handleAck_state s t nsp id d with h1 | ⟨sid, i, tok, _, _, _, h1 | ⟨n, args, _, _, h1⟩⟩ <;>
+    rw [h1] <;> rfl
+
+theorem bgOf_runHandler (cfg : Cfg) (s : Srv) (b : Bg) : (runHandler cfg s b).1.bg = s.bg := by
+  unfold runHandler
+  split
+  · rfl
+  · rename_i r _
+    cases r <;> dsimp only <;> (try cases cfg.script.onEvent s.nEv) <;> rfl
+
+theorem bgOf_handleEvent {cfg : Cfg} (hs : cfg.asyncHandlers = false) (s : Srv) (t : Eio)
+    (nsp : Option Str) (id : Option Nat) (d : Option J) : (handleEvent cfg s t nsp id d).1.bg = s.bg := by
+  unfold handleEvent
+  dsimp only
+  split
+  · rfl
+  · split
+    · rfl
+    · split
+      · rfl
+      · rw [hs]
+        simp only [Bool.false_eq_true, if_false]
+        exact bgOf_runHandler _ _ _
+
+theorem bgOf_handleFrame (dec : Str → Except Err (Packet × Nat)) {cfg : Cfg}
+    (hs : cfg.asyncHandlers = false) (s : Srv) (t : Eio) (v : J) :
+    (handleFrame dec cfg s t v).1.bg = s.bg := by
+  have hfc := frameCase dec cfg s t v
+  generalize handleFrame dec cfg s t v = r at hfc
+  cases hfc with
+  | tooMany _ _ => rfl
+  | reconErr _ _ _ _ => rfl
+  | binEvent _ _ _ _ _ => exact bgOf_handleEvent hs _ _ _ _ _
+  | binAck _ _ _ _ _ => exact bgOf_handleAck _ _ _ _ _
+  | more _ _ _ => rfl
+  | undecodable _ _ => rfl
+  | packet hf hd =>
+    rename_i p natt
+    have hdc := dispatchCase cfg s t p natt
+    generalize dispatchPacket cfg s t p natt = r at hdc
+    cases hdc with
+    | connect _ => exact bgOf_handleConnect _ _ _ _ _
+    | disconnect _ => exact bgOf_handleDisconnect _ _ _ _ _
+    | event _ => exact bgOf_handleEvent hs _ _ _ _ _
+    | ack _ => exact bgOf_handleAck _ _ _ _ _
+    | binHeader _ => rfl
+    | other => rfl
+
+theorem bgOf_lostGo (cfg : Cfg) (t : Eio) (reason : Str) (nss : List Ns) :
+    ∀ (s : Srv) (o : List Out), (handleLost.go cfg t reason s o nss).1.bg = s.bg := by
+  induction nss with
+  | nil => intro s o; rfl
+  | cons ns rest ih =>
+    intro s o
+    rw [handleLost.go, ih, bgOf_handleDisconnect]
+
+theorem bgOf_handleLost (cfg : Cfg) (s : Srv) (t : Eio) (reason : Str) :
+    (handleLost cfg s t reason).1.bg = s.bg := by
+  rw [handleLost_eq]
+  split
+  · rfl
+  · exact bgOf_lostGo cfg t reason _ s []
+
+theorem bgOf_emitFold (ns : Ns) (payload : List J) (tok : CbTok) (rs : List (Sid × Eio)) :
+    ∀ (s : Srv) (o : List Out), (rs.foldl (emitOne ns payload tok) (s, o)).1.bg = s.bg := by
+  induction rs with
+  | nil => intro s o; rfl
+  | cons r rs ih =>
+    intro s o
+    simp only [List.foldl_cons]
+    rw [ih]; rfl
+
+theorem bgOf_emit (s : Srv) (ev : Str) (d : Data) (ns : Ns) (to : Target) (skip : List Sid)
+    (cb : Option CbTok) : (emit s ev d ns to skip cb).1.bg = s.bg := by
+  cases cb with
+  | none => rw [emit_nocb_state]
+  | some tok =>
+    rw [emit_cb_eq]
+    split
+    · rfl
+    · exact bgOf_emitFold ns _ tok _ s []
+
+theorem bgOf_sessSet (s : Srv) (t : Eio) (ns : Ns) (v : J) : (sessSet s t ns v).bg = s.bg := by
+  unfold sessSet
+  split <;> rfl
+
+theorem bgOf_drain (cfg : Cfg) (bs : List Bg) :
+    ∀ (s : Srv) (o : List Out), (step.drain cfg s o bs).1.bg = s.bg := by
+  induction bs with
+  | nil => intro s o; rfl
+  | cons b rest ih =>
+    intro s o
+    rw [step.drain, ih, bgOf_runHandler]
+
+/-- with `async_handlers=False` the queue of background handlers stays empty -/
+theorem step_bgNil (dec : Str → Except Err (Packet × Nat)) {cfg : Cfg}
+    (hs : cfg.asyncHandlers = false) {s : Srv} (h : s.bg = []) (i : Input) :
+    (Server.step dec cfg s i).1.bg = [] := by
+  cases i with
+  | eioConnect t => rw [step]; exact h
+  | frame t v => rw [step, bgOf_handleFrame dec hs]; exact h
+  | eioLost t r => rw [step, bgOf_handleLost]; exact h
+  | emit ev d ns to skip cb => rw [step, bgOf_emit]; exact h
+  | call ev d ns sid during => rw [step_call, hs]; exact h
+  | apiDisconnect sid ns =>
+    rw [step]; unfold apiDisconnect
+    split
+    · exact h
+    · exact (bgOf_endSession _ _ _ _ _ _).trans h
+  | enterRoom sid ns room => rw [step]; split <;> exact h
+  | leaveRoom sid ns room => rw [step]; exact h
+  | closeRoom ns room => rw [step]; exact h
+  | rooms sid ns => rw [step]; exact h
+  | getSession sid ns =>
+    rw [step]
+    split
+    · exact h
+    · split
+      · exact h
+      · exact (bgOf_sessSet _ _ _ _).trans h
+  | saveSession sid ns v =>
+    rw [step]
+    split
+    · exact h
+    · exact (bgOf_sessSet _ _ _ _).trans h
+  | sessionBlock sid ns k v =>
+    rw [step]
+    split
+    · exact h
+    · exact (bgOf_sessSet _ _ _ _).trans h
+  | settle => rw [step, bgOf_drain]
+
+theorem run_bgNil (dec : Str → Except Err (Packet × Nat)) {cfg : Cfg}
+    (hs : cfg.asyncHandlers = false) (is : List Input) :
+    ∀ {s : Srv}, s.bg = [] → (Server.run dec cfg s is).1.bg = [] := by
+  induction is with
+  | nil => intro s h; rw [run_nil]; exact h
+  | cons i is ih => intro s h; rw [run_cons]; exact ih (step_bgNil dec hs h i)
+
+theorem stepWith_bgNil (dec : Str → Except Err (Packet × Nat)) (c : Cfg) (a : Ns) (mode : Str)
+    (ro : Bool) (rep : Srv → Input → List Out → List Report) (hs : c.asyncHandlers = false)
+    {s : Srv} (h : s.bg = []) (i : Input) :
+    (Instrumented.stepWith dec c a mode ro rep s i).1.bg = [] := by
+  simp only [Instrumented.stepWith]
+  rw [(emitReports_invisible dec _ a _ _).1]
+  exact run_bgNil dec (cfg := Instrumented.cfg c a mode ro) hs _ (step_bgNil dec (cfg := Instrumented.cfg c a mode ro) hs h i)
+
+/-- **the second half of `quiet` holds by construction** with synchronous handlers -/
+theorem settleQuiet_sync (dec : Str → Except Err (Packet × Nat)) (c : Cfg) (a : Ns) (mode : Str)
+    (ro : Bool) (rep : Srv → Input → List Out → List Report) (hs : c.asyncHandlers = false)
+    (hist : List Input) : ∀ {s : Srv}, s.bg = [] →
+      Instrumented.settleQuiet dec c a mode ro rep s hist = true := by
+  induction hist with
+  | nil => intro s _; rfl
+  | cons i is ih =>
+    intro s h
+    simp only [Instrumented.settleQuiet, ih (stepWith_bgNil dec c a mode ro rep hs h i), Bool.and_true]
+    cases i <;> simp [h]
+
+/-! ### read-only: a request of an admin client, per step -/
+
+/-- a frame that delivers an EVENT packet (as a text frame, or as the last attachment of a
+    BINARY_EVENT) is handed to `_handle_event`, in the state itself or — binary — in the state
+    without the completed partial packet -/
+theorem handleFrame_arriving_event (dec : Str → Except Err (Packet × Nat)) (cfg : Cfg) {s : Srv}
+    {t : Eio} {v : J} {p : Packet} (h : arriving dec s t v = some p) (hty : p.type = EVENT) :
+    ∃ s₀, ((s.binbuf.find? (fun e => e.1 = t) = none ∧ s₀ = s) ∨
+        (s.binbuf.find? (fun e => e.1 = t) ≠ none ∧ s₀ = dropBin s t)) ∧
+      handleFrame dec cfg s t v = handleEvent cfg s₀ t p.nsp p.id p.data := by
+  have hae : ¬ ACK = EVENT := by decide
+  unfold arriving at h
+  split at h
+  · rename_i t' part hf
+    dsimp only at h
+    split at h
+    · cases h
+    · rename_i h1
+      split at h
+      · rename_i h2
+        refine ⟨dropBin s t, Or.inr ⟨by rw [hf]; simp, rfl⟩, ?_⟩
+        have hbe : ∀ q : Packet, q.type = (if part.pkt.type = BINARY_EVENT then EVENT else ACK) →
+            q.type = EVENT → part.pkt.type = BINARY_EVENT := by
+          intro q hq he
+          by_cases hb : part.pkt.type = BINARY_EVENT
+          · exact hb
+          · rw [if_neg hb] at hq; exact absurd (hq.symm.trans he) hae
+        unfold handleFrame
+        rw [hf]
+        dsimp only
+        rw [if_neg h1, if_pos h2]
+        split at h
+        · rename_i j hj
+          split at h
+          · rename_i d hd
+            cases h
+            have hb := hbe _ rfl hty
+            simp only [hj, hd, Except.map, hb, if_true]
+            rfl
+          · cases h
+        · rename_i hj
+          cases h
+          have hb := hbe _ rfl hty
+          simp only [hj, hb, if_true]
+          rfl
+      · cases h
+  · rename_i hf
+    refine ⟨s, Or.inl ⟨hf, rfl⟩, ?_⟩
+    have key : ∃ n, frameDecode dec v = .ok (p, n) := by
+      unfold frameDecode
+      split at h
+      · split at h
+        · rename_i q n hq
+          cases h; exact ⟨n, hq⟩
+        · cases h
+      · cases h
+      · rename_i h1 h2
+        split at h
+        · rename_i q n hq
+          cases h
+          refine ⟨n, ?_⟩
+          split
+          · exact absurd rfl (h1 _ _)
+          · exact absurd rfl (h2 _ _)
+          · exact hq
+        · cases h
+    obtain ⟨n, hn⟩ := key
+    have hfr : handleFrame dec cfg s t v =
+        match frameDecode dec v with
+        | .error e => (s, [.raised e])
+        | .ok (p, n) => dispatchPacket cfg s t p n := by
+      unfold handleFrame frameDecode
+      rw [hf]
+      rfl
+    rw [hfr, hn]
+    have hne : ¬ EVENT = CONNECT := by decide
+    have hne2 : ¬ EVENT = DISCONNECT := by decide
+    simp only [dispatchPacket, hty, hne, hne2, if_false, if_true]
+
+theorem hidden_of_filter {a : Ns} {outs : List Out} (h : outs.filter (appVisible a true) = []) :
+    Hidden a outs := by
+  intro o ho
+  have := List.filter_eq_nil_iff.mp h o ho
+  simpa using this
+
+section ro
+variable {a : Ns} {mode : Str} {ro : Bool} (c : Cfg)
+  (hro : ro = true ∨ isDev mode = false) (hc : AppClear c.reg a) (ha : a ≠ star)
+  (dec : Str → Except Err (Packet × Nat)) (rep : Srv → Input → List Out → List Report)
+include hro hc ha
+
+/-- **One request of an admin client, in read-only / production mode, from ANY state**: the frame
+    delivers an EVENT packet of the admin namespace (whatever its name and arguments).  The room
+    relation and the disconnects in progress are untouched — on every namespace —, and every
+    output is hidden from the application side. -/
+theorem stepWith_adminEvent_ro (s : Srv) (t : Eio) (v : J) {p : Packet}
+    (harr : arriving dec s t v = some p) (hty : p.type = EVENT) (hns : p.nsp.getD ['/'] = a) :
+    (Instrumented.stepWith dec c a mode ro rep s (.frame t v)).1.rooms = s.rooms ∧
+    (Instrumented.stepWith dec c a mode ro rep s (.frame t v)).1.pending = s.pending ∧
+    Hidden a (Instrumented.stepWith dec c a mode ro rep s (.frame t v)).2 ∧
+    NoMut a (Instrumented.stepWith dec c a mode ro rep s (.frame t v)).2 := by
+  obtain ⟨s₀, hs₀, hfr⟩ := handleFrame_arriving_event dec (Instrumented.cfg c a mode ro) harr hty
+  obtain ⟨h1, h2⟩ := stepWith_ro c hro hc ha dec rep s (.frame t v)
+  have hst : Server.step dec (Instrumented.cfg c a mode ro) s (.frame t v) =
+      handleEvent (Instrumented.cfg c a mode ro) s₀ t p.nsp p.id p.data := by rw [step]; exact hfr
+  have hcore := handleEvent_core (Instrumented.cfg c a mode ro) s₀ t p.nsp p.id p.data
+  have hr0 : s₀.rooms = s.rooms ∧ s₀.pending = s.pending := by
+    rcases hs₀ with ⟨_, rfl⟩ | ⟨_, rfl⟩ <;> exact ⟨rfl, rfl⟩
+  refine ⟨?_, ?_, ?_, stepWith_noMut c hro hc ha dec rep s _⟩
+  · rw [h1, hst]; exact (congrArg Srv.rooms hcore).trans hr0.1
+  · rw [h1, hst]; exact (congrArg Srv.pending hcore).trans hr0.2
+  · rw [h2]
+    refine Hidden.append ?_ (hidden_of_filter ((emitReports_invisible dec _ a _ _).2 true))
+    rw [hst]
+    exact (handleEvent_admin ha c hc mode ro s₀ t p.nsp p.id p.data hns).2
+
+/-- … and when such a request was queued (`async_handlers`) and is run later, in whatever
+    state: only the position of the event script moves (an event literally named `connect` runs
+    `admin_connect`), every output is hidden from the application side, none is a mutator. -/
+theorem runHandler_admin_ro (s : Srv) (b : Bg) (hb : b.ns = a) :
+    (∃ k, (runHandler (Instrumented.cfg c a mode ro) s b).1 = { s with nEv := s.nEv + k }) ∧
+    Hidden a (runHandler (Instrumented.cfg c a mode ro) s b).2 ∧
+    NoMut a (runHandler (Instrumented.cfg c a mode ro) s b).2 := by
+  obtain ⟨h1, h2⟩ := icfg_noStar hc ha mode ro
+  obtain ⟨hk, hh⟩ := runHandler_ns h1 h2 s b
+  rw [hb] at hh
+  exact ⟨hk, hh, runHandler_noMut (icfg_regNoMut c hro hc ha) s b⟩
+
+end ro
+
+/-! ### histories without the admin clients' requests -/
+
+/-- `i`, arriving in state `s`, is a text frame (no binary packet of its transport is being
+    reassembled) that carries an EVENT packet of the admin namespace -/
+def adminEventInput (dec : Str → Except Err (Packet × Nat)) (a : Ns) (s : Srv) : Input → Bool
+  | .frame t v =>
+    (s.binbuf.find? (fun e => e.1 = t)).isNone &&
+    (match arriving dec s t v with
+     | some p => p.type == EVENT && p.nsp.getD ['/'] == a
+     | none => false)
+  | _ => false
+
+namespace Instrumented
+
+/-- the history without the EVENT frames admin clients sent on the admin namespace (which frames
+    these are is decided along the instrumented run) -/
+def withoutAdminEvents (dec : Str → Except Err (Packet × Nat)) (c : Cfg) (a : Ns) (mode : Str)
+    (ro : Bool) (rep : Srv → Input → List Out → List Report) : Srv → List Input → List Input
+  | _, [] => []
+  | s, i :: is =>
+    if adminEventInput dec a s i then
+      withoutAdminEvents dec c a mode ro rep (stepWith dec c a mode ro rep s i).1 is
+    else i :: withoutAdminEvents dec c a mode ro rep (stepWith dec c a mode ro rep s i).1 is
+
+end Instrumented
+
+def Skip.add (k k' : Skip) : Skip := ⟨k.sid + k'.sid, k.conn + k'.conn, k.ev + k'.ev⟩
+
+theorem bumpBy_bumpBy (k k' : Skip) (s : Srv) : bumpBy k (bumpBy k' s) = bumpBy (Skip.add k' k) s := by
+  simp only [bumpBy, Skip.add, Nat.add_assoc]
+
+theorem adminEventInput_inv {dec : Str → Except Err (Packet × Nat)} {a : Ns} {s : Srv} {i : Input}
+    (h : adminEventInput dec a s i = true) :
+    ∃ t v p, i = .frame t v ∧ s.binbuf.find? (fun e => e.1 = t) = none ∧
+      arriving dec s t v = some p ∧ p.type = EVENT ∧ p.nsp.getD ['/'] = a := by
+  cases i with
+  | frame t v =>
+    simp only [adminEventInput, Bool.and_eq_true, Option.isNone_iff_eq_none] at h
+    obtain ⟨hf, h2⟩ := h
+    split at h2
+    · rename_i p hp
+      simp only [Bool.and_eq_true, beq_iff_eq] at h2
+      exact ⟨t, v, p, rfl, hf, hp, h2.1, h2.2⟩
+    · cases h2
+  | _ => simp [adminEventInput] at h
+
+/-- the plain server, which has no session on the admin namespace, ignores such a frame -/
+theorem plain_adminEvent (dec : Str → Except Err (Packet × Nat)) (c : Cfg) {a : Ns} {s : Srv}
+    {t : Eio} {v : J} {p : Packet} (hf : s.binbuf.find? (fun e => e.1 = t) = none)
+    (harr : arriving dec s t v = some p) (hty : p.type = EVENT) (hns : p.nsp.getD ['/'] = a) :
+    (Server.step dec c (appPart a s) (.frame t v)).1 = appPart a s ∧
+    Hidden a (Server.step dec c (appPart a s) (.frame t v)).2 := by
+  have harr' : arriving dec (appPart a s) t v = some p := harr
+  obtain ⟨s₀, hs₀, hfr⟩ := handleFrame_arriving_event dec c harr' hty
+  have : s₀ = appPart a s := by
+    rcases hs₀ with ⟨_, h⟩ | ⟨h, _⟩
+    · exact h
+    · exact absurd hf h
+  subst this
+  rw [step, hfr]
+  exact handleEvent_plain a c s t p.nsp p.id p.data hns
+
+section trace
+variable {a : Ns} (ha : a ≠ star) (c : Cfg) (hc : AppClear c.reg a) (hserved : isServed c a = false)
+  (mode : Str) (ro : Bool) (dec : Str → Except Err (Packet × Nat))
+  (rep : Srv → Input → List Out → List Report)
+include ha hc hserved
+
+/-- `trace_sim` against the plain server run on the history WITHOUT the admin clients' EVENT
+    frames: the application side observes the same outputs, in the same order -/
+theorem pruned_sim (hist : List Input) :
+    ∀ (si sp : Srv) (k : Skip), Server.WF si → Server.WF sp → appPart a si = bumpBy k sp →
+      (∀ i ∈ hist, appInput a i = true) →
+      Instrumented.quiet dec c a mode ro rep si hist = true →
+      ∃ skips : List Skip,
+        skips.length = (Instrumented.withoutAdminEvents dec c a mode ro rep si hist).length ∧
+        (observeTrace a (Instrumented.traceWith dec c a mode ro rep si hist).2).flatMap (·.2) =
+          (observeTrace a (Plain.traceSkip dec c sp
+            (skips.zip (Instrumented.withoutAdminEvents dec c a mode ro rep si hist))).2).flatMap (·.2) ∧
+        appState a (Instrumented.traceWith dec c a mode ro rep si hist).1 =
+          appState a (Plain.traceSkip dec c sp
+            (skips.zip (Instrumented.withoutAdminEvents dec c a mode ro rep si hist))).1 := by
+  induction hist with
+  | nil =>
+    intro si sp k _ _ hrel _ _
+    exact ⟨[], rfl, rfl, appState_of_rel hrel⟩
+  | cons i is ih =>
+    intro si sp k hwi hwp hrel happ hq
+    have hwp' : Server.WF (appPart a si) := by rw [hrel]; exact WF.bumpBy hwp k
+    have hcb := noAdminCb_of_wf hwi hwp'
+    simp only [Instrumented.quiet, Bool.and_eq_true] at hq
+    obtain ⟨⟨k', hk'⟩, ho⟩ := stepWith_sim ha c hc hserved mode ro dec rep hwi hcb i
+      (happ i List.mem_cons_self) hq.1
+    have happ' : ∀ j ∈ is, appInput a j = true := fun j hj => happ j (List.mem_cons_of_mem _ hj)
+    cases hadm : adminEventInput dec a si i with
+    | true =>
+      obtain ⟨t, v, p, rfl, hf, harr, hty, hns⟩ := adminEventInput_inv hadm
+      obtain ⟨hp1, hp2⟩ := plain_adminEvent dec c hf harr hty hns
+      rw [hp1, hrel, bumpBy_bumpBy] at hk'
+      obtain ⟨skips, hlen, htr, hst⟩ := ih _ sp _ (stepWith_wf c mode ro dec rep hwi _) hwp hk'
+        happ' hq.2
+      have ho' : (Instrumented.stepWith dec c a mode ro rep si (.frame t v)).2.filter (appVisible a true) = [] := by
+        have h2 : (Server.step dec c (appPart a si) (.frame t v)).2.filter (appVisible a true) = [] := by
+          rw [List.filter_eq_nil_iff]; intro o ho; simp [hp2 o ho]
+        exact ho.trans h2
+      refine ⟨skips, ?_, ?_, ?_⟩
+      · simp only [Instrumented.withoutAdminEvents, hadm, if_true]; exact hlen
+      · simp only [Instrumented.withoutAdminEvents, hadm, if_true, Instrumented.traceWith, observeTrace,
+          List.map_cons, List.flatMap_cons, appView, contained, ho', List.nil_append]
+        simp only [observeTrace, appView] at htr
+        exact htr
+      · simp only [Instrumented.withoutAdminEvents, hadm, if_true, Instrumented.traceWith]
+        exact hst
+    | false =>
+      rw [hrel] at hk' ho
+      obtain ⟨skips, hlen, htr, hst⟩ := ih _ _ k' (stepWith_wf c mode ro dec rep hwi i)
+        ((WF.bumpBy hwp k).step dec c i) hk' happ' hq.2
+      refine ⟨k :: skips, ?_, ?_, ?_⟩
+      · simp [Instrumented.withoutAdminEvents, hadm, hlen]
+      · simp only [Instrumented.withoutAdminEvents, hadm, Bool.false_eq_true, if_false,
+          Instrumented.traceWith, List.zip_cons_cons, Plain.traceSkip, observeTrace,
+          List.map_cons, List.flatMap_cons, appView, ho]
+        simp only [observeTrace, appView] at htr
+        rw [htr]
+      · simp only [Instrumented.withoutAdminEvents, hadm, Bool.false_eq_true, if_false,
+          Instrumented.traceWith, List.zip_cons_cons, Plain.traceSkip]
+        exact hst
+
+end trace
 
 end Sio.Admin
